@@ -7,13 +7,19 @@
  "drops": ["qb_util_log/qb_util_perror diagnostics compiled out (stubs/nolog.h)"],
  "expect_classes": ["assertion"], "timeout": 250, "cbmc_flags": ["--no-malloc-may-fail"],
  "variants": [{"vname": "at_most_one_queued", "defines": ["-DV_CLASS=(clones<=1)"]},
-              {"vname": "several_queued", "defines": ["-DV_CLASS=(clones>=2)", "-DV_SEVERAL"]}]}
+              {"vname": "several_queued", "defines": ["-DV_CLASS=(clones>=2)", "-DV_SEVERAL"]},
+              {"vname": "several_queued_high", "defines": ["-DV_CLASS=(clones>=2)", "-DV_SEVERAL", "-DV_LEVEL=QB_LOOP_HIGH"]},
+              {"vname": "at_most_one_queued_low", "defines": ["-DV_CLASS=(clones<=1)", "-DV_LEVEL=QB_LOOP_LOW"]}]}
 */
 /* qb_loop_signal_del(handle) with deliveries of that registration already queued for dispatch: after it
  * returns success no queued item refers to the deleted registration any more (its callback can never be
  * invoked again, and the freed registration is never dereferenced), every other queued item stays queued
  * in order, and the level's count drops by exactly the number of removed deliveries.
- * Variant at_most_one_queued: zero or one delivery queued.  Variant several_queued: two or three. */
+ * Variant at_most_one_queued: zero or one delivery queued.  Variant several_queued: two or three.
+ * The registration's priority is MED in these two, HIGH resp. LOW in the *_high / *_low variants (the delete walks every level). */
+#ifndef V_LEVEL
+#define V_LEVEL QB_LOOP_MED
+#endif
 #include "os_base.h"
 #include <signal.h>
 #include <qb/qbdefs.h>
@@ -52,13 +58,13 @@ void harness(void)
 	l->timer_source = NULL; l->job_source = NULL; l->fd_source = NULL;
 	ss->s.l = l; ss->s.poll = NULL; ss->s.dispatch_and_take_back = _signal_dispatch_and_take_back_;
 	qb_list_init(&ss->sig_head);
-	sig->signal = nd_signal; sig->p = QB_LOOP_MED; sig->dispatch_fn = NULL; sig->cloned_from = NULL;
+	sig->signal = nd_signal; sig->p = V_LEVEL; sig->dispatch_fn = NULL; sig->cloned_from = NULL;
 	sig->item.source = &ss->s; sig->item.type = QB_LOOP_SIG; sig->item.user_data = NULL;
 	qb_list_init(&sig->item.list);
 	qb_list_add_tail(&sig->item.list, &ss->sig_head);
 	*other = *sig; qb_list_init(&other->item.list);
 	int32_t clones = 0;
-	struct qb_loop_level *lev = &l->level[QB_LOOP_MED];
+	struct qb_loop_level *lev = &l->level[V_LEVEL];
 	for (int32_t i = 0; i < 3; i++) {
 		if (i < nd_n) {
 			*its[i] = *sig;
